@@ -18,7 +18,8 @@ META = {
         'offset); R2 compares which attribute each wire position is bound to; R5 checks that every concrete '
         'class has both directions and that every variant registry maps a tag to a class carrying that tag. '
         'Decides the layout/binding clause of the round trip for all field values; value-level equality of '
-        'converters (IDNA, dates, mpint arithmetic) is not decided.'),
+        'converters (IDNA, dates, mpint arithmetic) is not decided.'
+        ' R1h / R6 / R7 and the link fallback: the SSL 2.0 record header of both sides is tabulated over all header bytes; the item kind a vector parameter describes must be the kind its composer handles; the name[=value] composers are evaluated over absent / empty / plain / quoted values; a length field whose relation to its data is not affine on one or both sides is composed for n data bytes and fed back to the parser\'s size expression.'),
     'assumptions': [
         'the DSL primitives of common/parse.py behave as their names and signatures say (their own bodies are '
         'checked by C11/C03/C04 rules, not here)',
